@@ -13,6 +13,8 @@ type event struct {
 	Stack []int    // B only: nodes listed by the StackIterator, callee first
 	Any   bool     // model only: the values of this event are not specified
 	Extra int      // recorded only: slots the slice had beyond the function type's count
+	PCs   []uint64 // recorded only: StackIterator.ProgramCounter per listed frame (compared between
+	//                the component listeners of one MultiFunctionListenerFactory, not with the model)
 }
 
 func eventsEqual(got, want []event) bool {
@@ -124,7 +126,10 @@ type modelOpts struct {
 	// the first host function is entered, "rtinst" the calling module of an exit leaf.
 	lifecycle string
 	lcStack   bool // the stack iterator stops at the first frame whose module was deleted
-	lcAbort   bool // a frame of a deleted module is aborted only if that module is the entry module
+	// multiOuter (defect reading, compiler): functions with two or more listeners combined by
+	// MultiFunctionListenerFactory see every frame of their stack as the outermost listed function
+	multiOuter func(int) bool
+	lcAbort    bool // a frame of a deleted module is aborted only if that module is the entry module
 	//              of the current Call or directly imported by it
 }
 
@@ -166,7 +171,13 @@ func (m *model) call(i int, chain []int, unw *[]int, alias int) ([]uint64, *fail
 				}
 			}
 		}
-		m.ev = append(m.ev, event{K: 'B', Fn: i, Vals: append([]uint64{}, p...), Stack: append([]int{}, st...)})
+		st = append([]int{}, st...)
+		if m.o.multiOuter != nil && m.o.multiOuter(i) && len(st) > 0 {
+			for k := range st {
+				st[k] = st[len(st)-1]
+			}
+		}
+		m.ev = append(m.ev, event{K: 'B', Fn: i, Vals: append([]uint64{}, p...), Stack: st})
 	}
 	if m.o.lifecycle == "hostclose" && m.t.isHost(i) {
 		m.allDeleted = true // the hook runs at the entry of the Go function, after the before-event
@@ -191,6 +202,13 @@ func (m *model) call(i int, chain []int, unw *[]int, alias int) ([]uint64, *fail
 			k = 't'
 		}
 		switch k {
+		case 'c':
+			// second call site of an earlier function: its whole subtree runs again below this caller
+			r, f := m.call(m.t.target(c), mine, unw, -1)
+			if f != nil {
+				return fail(f)
+			}
+			acc = foldResults(acc, m.sigs[c], r)
 		case 'r':
 			// fresh call boundary: own stack, own unwinding
 			var inner []int
